@@ -337,7 +337,27 @@ def out_if_in_init(rng):
     return prog(init, [assign("x", add(v("x"), c(1)))]), {}, "out:if-in-init"
 
 
-OUT_SHAPES = [out_unbounded_cond, out_unbounded_guard, out_abstractable_cond, out_nl_cycle, out_param_dep,
+_DERIVED = {"k": 0}
+
+
+def out_derived_unbounded_cond(rng):
+    """a condition over a variable DERIVED (copy, alias of a non-reduced atom, comparison of two accumulators) from an
+    accumulator after the accumulator's assignment: not iteration independent, so no constant coin can stand for it"""
+    walk = ("assign", "x", choice2(F(1, 2), add(v("x"), c(1)), v("x")))
+    inc = assign("y", add(v("y"), c(1)))
+    k = _DERIVED["k"] % 3      # the three variants in turn (every run sees each)
+    _DERIVED["k"] += 1
+    if k == 0:
+        body = [walk, assign("w", v("x")), ("if", [(atom("w", ">", 2), [inc])], None)]
+        return prog([assign("x", c(0)), assign("w", c(0)), assign("y", c(0))], body), {}, "out:condition-over-copy-of-accumulator"
+    if k == 1:
+        body = [walk, ("if", [(("atom", v("x"), ">", c(F(5, 2))), [inc])], None)]
+        return prog([assign("x", c(0)), assign("y", c(0))], body), {}, "out:non-reduced-atom-over-accumulator"
+    body = [walk, ("assign", "z", choice2(F(1, 3), add(v("z"), c(1)), v("z"))), ("if", [(("atom", v("x"), ">", v("z")), [inc])], None)]
+    return prog([assign("x", c(0)), assign("z", c(0)), assign("y", c(0))], body), {}, "out:comparison-of-two-accumulators"
+
+
+OUT_SHAPES = [out_derived_unbounded_cond, out_unbounded_cond, out_unbounded_guard, out_abstractable_cond, out_nl_cycle, out_param_dep,
               out_uninitialised, out_if_in_init]
 
 
